@@ -27,6 +27,11 @@ from vf.core import HOLDS, VIOLATION, INCONCLUSIVE
 from vf.symf import P
 
 ENGINE = "S"
+
+
+def _wr(run, ob, payload):
+    """replay file of this part (the aggregator dispatches on engine_part)"""
+    return run.write_replay(ob, dict(payload, engine_part="S"))
 FUNCS = ["proofs/src/poly/kzg/mod.rs::KZGCommitmentScheme::multi_prepare", "proofs/src/poly/kzg/utils.rs::construct_intermediate_sets",
          "proofs/src/poly/query.rs::CommitmentReference::as_terms", "proofs/src/utils/arithmetic.rs::lagrange_interpolate",
          "proofs/src/utils/arithmetic.rs::msm_inner_product", "proofs/src/utils/arithmetic.rs::evals_inner_product",
@@ -92,7 +97,7 @@ def decide(run, ob, pairs, bad_patterns, payload, detail):
         payload = dict(payload, patterns=bad_patterns[:5])
         if replay(payload):
             ob.set(VIOLATION, f"{len(bad_patterns)} patterns fail, e.g. {bad_patterns[:2]}; {detail}", solver=r.solver,
-                   solver_s=r.time_s, replay=run.write_replay(ob, payload))
+                   solver_s=r.time_s, replay=_wr(run, ob, payload))
         else:
             ob.set(INCONCLUSIVE, f"{len(bad_patterns)} failing patterns did not replay; {detail}")
     else:
@@ -195,6 +200,8 @@ def check(run):
 def replay(payload):
     """completeness failures: (a) re-run the symbolic pattern (deterministic) and (b) show the failure on the real
     stack: the PLONK circuit whose first query is at a rotated point, real create_proof + prepare over Fq/KZG/Blake2b."""
+    if payload.get("engine_part") not in (None, "S") or payload.get("kind") not in ['completeness', 'duplicate', 'binding']:
+        return None
     symf.build()
     kind = payload["kind"]
     if kind == "completeness":
